@@ -36,7 +36,11 @@ func c09Formats(e *Env) {
 		{"dbmate", "1_a.sql", "-- migrate:up\nCREATE TABLE a (id int);\nCREATE TABLE b (\n  id int\n);\nCREATE TABLE c (id int);\n-- migrate:down\nDROP TABLE a;\n",
 			[]string{"CREATE TABLE a (id int);", "CREATE TABLE b (\n  id int\n);", "CREATE TABLE c (id int);"}},
 	}
-	for li, l := range layouts {
+	for li0 := 0; li0 < 2*len(layouts); li0++ {
+		// every layout twice: through a driver without and with a statement scanner of its own (the real drivers
+		// have one; it is meant for plain files, a format's reader knows its own sections)
+		li, scans := li0/2, li0%2 == 1
+		l := layouts[li]
 		for fault := -1; fault < len(l.units); fault++ {
 			root, err := os.MkdirTemp(e.Work, "c09f")
 			if err != nil {
@@ -49,7 +53,7 @@ func c09Formats(e *Env) {
 			} else {
 				dir, err = sqltool.NewDBMateDir(root)
 			}
-			id := fmt.Sprintf("%s layout %d, failure at unit %d", l.kind, li, fault)
+			id := fmt.Sprintf("%s layout %d (driver scans statements: %v), failure at unit %d", l.kind, li, scans, fault)
 			rep := map[string]any{"kind": l.kind, "file": l.body, "units": l.units, "fault": fault}
 			e.Res.Count("c09-format:"+id, fault >= 1, "format:"+l.kind)
 			if err == nil {
@@ -65,7 +69,11 @@ func c09Formats(e *Env) {
 			w := &fmtWorld{revs: map[string]*migrate.Revision{}, failAt: fault}
 			run := func() string {
 				defer func() { recover() }()
-				ex, err := migrate.NewExecutor(&fmtDrv{w: w}, dir, &fmtRRW{w})
+				var drv migrate.Driver = &fmtDrv{w: w}
+				if scans {
+					drv = &fmtScanDrv{fmtDrv{w: w}}
+				}
+				ex, err := migrate.NewExecutor(drv, dir, &fmtRRW{w})
 				if err != nil {
 					return "other:" + err.Error()
 				}
@@ -139,6 +147,11 @@ func (d *fmtDrv) CheckClean(context.Context, *migrate.TableIdent) error { return
 func (d *fmtDrv) Lock(context.Context, string, time.Duration) (schema.UnlockFunc, error) {
 	return func() error { return nil }, nil
 }
+
+// fmtScanDrv: the same driver with a statement scanner (the generic one)
+type fmtScanDrv struct{ fmtDrv }
+
+func (*fmtScanDrv) ScanStmts(input string) ([]*migrate.Stmt, error) { return migrate.Stmts(input) }
 
 type fmtRRW struct{ w *fmtWorld }
 
